@@ -1248,8 +1248,10 @@ func conditionTypeAliasConverter(u any) (C Condition, converted bool) {
 		// genuine Condition, just pass it back
 		// with a thumbs-up ...
 		if co, isCond := u.(Condition); isCond {
-			C = co
-			converted = isCond
+			if !co.IsZero() {
+				C = co
+				converted = true
+			}
 			return
 		}
 
